@@ -143,9 +143,16 @@ static int NM(fulldecode)(struct enc *e, struct dec *s, struct full *f)
   f->W = d.output_width; f->H = d.output_height; f->rowb = NM(rowbytes)(&d);
   f->pxb = f->rowb / (f->W ? f->W : 1);
   pix = (unsigned char *)malloc((size_t)f->rowb * f->H + 16);
-  while (d.output_scanline < d.output_height) {
-    SAMP *rp = (SAMP *)(pix + (size_t)f->rowb * d.output_scanline);
-    JR(&d, &rp, 1);
+  {
+    /* every row is decoded into a 16-byte aligned buffer: the dithered RGB565 kernels treat a row pointer that is not
+       4-byte aligned differently (and rowb = 2 * W is not always a multiple of 4) */
+    unsigned char *tmp = (unsigned char *)malloc((size_t)f->rowb + 16);
+    while (d.output_scanline < d.output_height) {
+      SAMP *rp = (SAMP *)tmp; JDIMENSION y = d.output_scanline;
+      if (JR(&d, &rp, 1) != 1) break;
+      memcpy(pix + (size_t)f->rowb * y, tmp, (size_t)f->rowb);
+    }
+    free(tmp);
   }
   NM(finish)(&d, s);
   jpeg_destroy_decompress(&d);
